@@ -188,6 +188,11 @@ type RunConfig struct {
 	// StoreSim (E4 storesim): no raft node runs; the first node's in-memory
 	// storage is driven directly by writer, application and reader.
 	StoreSim bool `json:"store_sim,omitempty"`
+	// ByRef: the transport is in-process and hands the receiver the very
+	// message object the sender produced (entries, snapshot and context share
+	// memory with the sender's log) instead of unmarshalling a copy; a
+	// duplicate delivers the same object again.
+	ByRef bool `json:"by_ref,omitempty"`
 }
 
 func (rc *RunConfig) node(id uint64) *NodeCfg {
